@@ -28,8 +28,8 @@ MUTANTS = [
          old="        FileBuilder._create_dirs(self._old_cache.created_dirs())\n        self._backups.restore_all()",
          new="        FileBuilder._create_dirs(self._old_cache.created_dirs())"),
     dict(name='c02_no_backup_before_overwrite', props=['C02', 'C03'], file=FB,
-         old="            if (os.path.isfile(filename) and\n                    self._backups.back_up_and_remove(filename)):\n                logger.info(\n                    'Moved {:s} to a temporary directory, in preparation for '\n                    'rebuilding the file'.format(filename))",
-         new="            if os.path.isfile(filename):\n                os.remove(filename)"),
+         old="                if (os.path.isfile(filename) and\n                        self._backups.back_up_and_remove(filename)):\n                    logger.info(\n                        'Moved {:s} to a temporary directory, in preparation '\n                        'for rebuilding the file'.format(filename))",
+         new="                if os.path.isfile(filename):\n                    os.remove(filename)"),
     dict(name='c02_forget_cache_dirs_in_rollback', props=['C02'], file=FB,
          old="        created_dirs = (\n            self._build_dirs.created_dirs() + cache_file_created_dirs)",
          new="        created_dirs = self._build_dirs.created_dirs()"),
@@ -257,4 +257,29 @@ MUTANTS += [
     dict(name='c14_make_dirs_no_undo', props=['C14'], file=FB,
          old="            FileBuilder._remove_empty_dirs(made_dirs)\n            raise",
          new="            raise"),
+]
+
+MUTANTS += [
+    # ---- C08 / C09 (scheduler)
+    dict(name='c08_claim_after_backup', props=['C08'], file=FB,
+         old="            self._new_cache.start_building_file(filename)\n            try:\n                if (os.path.isfile(filename) and\n                        self._backups.back_up_and_remove(filename)):\n                    logger.info(\n                        'Moved {:s} to a temporary directory, in preparation '\n                        'for rebuilding the file'.format(filename))\n            except Exception:\n                self._new_cache.cancel_building_file(filename)\n                raise",
+         new="            if (os.path.isfile(filename) and\n                    self._backups.back_up_and_remove(filename)):\n                pass\n            self._new_cache.start_building_file(filename)"),
+    dict(name='c08_hash_memo_not_discarded_after_rebuild', props=['C08'], file=FB,
+         old="            self._simple_operation_executor.forget_file_hash(filename)\n",
+         new=""),
+    dict(name='c09_no_creation_lock_in_build_file', props=['C09'], file=FB,
+         old="        with self._build_dirs.creation_lock():\n            created_dirs = self._prepare_file_creation()\n            locked_created_dirs = self._build_dirs.started_building_file(\n                filename, created_dirs)",
+         new="        created_dirs = self._prepare_file_creation()\n        locked_created_dirs = self._build_dirs.started_building_file(\n            filename, created_dirs)"),
+    dict(name='c09_error_building_file_without_creation_lock', props=['C09'], file=BD,
+         old="        with self._creation_lock, self._lock:\n            while parent != prev_parent:\n                count = self._build_dir_counts[parent] - 1",
+         new="        with self._lock:\n            while parent != prev_parent:\n                count = self._build_dir_counts[parent] - 1"),
+    dict(name='c09_start_subbuild_takes_files_lock_inside', props=['C09', 'C08'], file=CACHE,
+         old="        with self._subbuilds_lock:\n            self._assert_doesnt_have_subbuild(subbuild_key, operation)\n            self._subbuilds[subbuild_key] = None",
+         new="        with self._subbuilds_lock:\n            with self._files_lock:\n                self._assert_doesnt_have_subbuild(subbuild_key, operation)\n                self._subbuilds[subbuild_key] = None"),
+    dict(name='c09_backup_index_unlocked', props=['C09'], file=BK,
+         old="        with self._lock:\n            value = self._next_backup_index\n            self._next_backup_index += 1\n",
+         new="        value = self._next_backup_index\n        os.path.isdir(self._temp_dir)\n        self._next_backup_index = value + 1\n"),
+    dict(name='c09_error_after_remove_order_restored', props=['C09'], file=FB,
+         old="        FileBuilder._try_to_remove_file(filename)\n        self._build_dirs.error_building_file(filename)\n        logger.warning(",
+         new="        self._build_dirs.error_building_file(filename)\n        FileBuilder._try_to_remove_file(filename)\n        logger.warning("),
 ]
